@@ -281,7 +281,11 @@ theorem spline_knot (pts : List (List K)) (h : Valid pts) (hn32 : nSegs pts ≤ 
 
 set_option linter.unusedVariables false in
 /-- `spline_continuous_at_joins`: at an interior join `k/n` the value of `eval`, the left cubic at
-its local parameter 1 and the right cubic at its local parameter 0 are the same point `pts[3k]`. -/
+its local parameter 1 and the right cubic at its local parameter 0 are the same point `pts[3k]`.
+NOTE: the last two conjuncts hold by the end clamps of `step` for *any* four control points – they
+only record that adjacent segments share the point `pts[3k]`. The actual continuity content is
+`spline_eq_segment_closed` (each cubic agrees with `eval` on its whole closed interval) and the
+quantitative `spline_lipschitz` / `spline_continuous`. -/
 theorem spline_continuous_at_joins (pts : List (List K)) (h : Valid pts)
     (hn32 : nSegs pts ≤ 4294967296) (k : Nat) (hk0 : 0 < k) (hk : k < nSegs pts)
     {l0 l1 l2 p r1 r2 r3 : List K}
